@@ -8,10 +8,6 @@ import Mwp.Spec.Calculus
 namespace Mwp.Spec
 open Mwp
 
-def changesVariableO : Option Node → Bool
-  | none => false
-  | some n => changesVariable n
-
 mutual
 /-- controlling expressions (if / while / do-while conditions, for-loop clauses) that have a
     side effect, anywhere in the statement -/
@@ -40,8 +36,8 @@ mutual
     blocks, branches, loop bodies, switch bodies, cases, labels.  `counted` decides which `for`
     statements are loops of the calculus (pymwp: `Coverage.loop_compat`). -/
 def allLoops (counted : Node → Bool) : Node → List Node
-  | n@(.while_ _ b) => n :: allLoops counted b
-  | n@(.doWhile _ b) => n :: allLoops counted b
+  | n@(.while_ _ b) => (if counted n then [n] else []) ++ allLoops counted b
+  | n@(.doWhile _ b) => (if counted n then [n] else []) ++ allLoops counted b
   | n@(.for_ _ _ _ b) => (if counted n then [n] else []) ++ allLoops counted b
   | .ifs _ t f => allLoopsO counted t ++ allLoopsO counted f
   | .compound (some l) => allLoopsL counted l
@@ -62,10 +58,17 @@ def allLoopsO (counted : Node → Bool) : Option Node → List Node
   | some n => allLoops counted n
 end
 
+/-- the loop statements of the calculus: a `while` / `do-while` whose condition changes no variable,
+    a `for` that reads as "repeat X times" (pymwp: `Coverage.loop_compat`, which also requires an
+    effect-free condition) -/
 def countedFor (n : Node) : Bool :=
-  match Syntax.loopCompat n with
-  | .ok (true, some _) => true
-  | _ => false
+  match n with
+  | .while_ c _ => !changesVariable c
+  | .doWhile c _ => !changesVariable c
+  | _ =>
+    match Syntax.loopCompat n with
+    | .ok (true, some _) => true
+    | _ => false
 
 /-- short description of a statement the calculus reading (`desugar`) rejects -/
 def describe : Node → String
